@@ -39,6 +39,11 @@ def worlds(tier):
         w.W("chain2-havoc-cancel", w.fixed_times(w.chain(2)), w.C1, "HAVOC", split=6, havoc=dict(hv, max_cancels=1, release_taskgraphs=True), tasks=small(("T0", "T1"))),
         w.W("fork-havoc-cancel", w.fixed_times(w.fork()), w.C2, "HAVOC", split=8, havoc=dict(hv, max_cancels=1, max_unplaced=0, future=False, first_pool_only=True),
             tasks=small(("A", "B", "C")), weight=40),
+        w.W("lone-sink-cancelled-while-a-planned-ahead-task-with-a-descendant-waits-for-its-parent-havoc",
+            [w.G("G0", ["X", "P", "T", "D"], [("P", "T"), ("T", "D")], release=0, deadline=10 ** 6)], w.C2, "HAVOC", split=9,
+            havoc=dict(hv, max_cancels=1, release_taskgraphs=True, max_unplaced=1, first_pool_only=True,
+                       per_task={"P": {"cancel": False, "max_unplaced": 0, "future": False}, "T": {"cancel": False}, "D": {"cancel": False, "max_unplaced": 1}, "X": {"max_unplaced": 1}}),
+            tasks={"X": {"strategies": [{"rt": 2}]}, "P": {"strategies": [{"rt": 3}]}, "T": {"strategies": [{"rt": 1}]}, "D": {"strategies": [{"rt": 1}]}}, weight=80),
         w.W("chain2-havoc-drop-skipped", w.fixed_times(w.chain(2)), w.C1, "HAVOC", split=6, drop_skipped=True, havoc=dict(hv, release_taskgraphs=True), tasks=small(("T0", "T1"))),
         w.W("one-task-havoc-plan-replan-skip", w.fixed_times(w.indep(1)), w.C1, "HAVOC", split=6, havoc=dict(hv, retract=True, max_replans=2, max_unplaced=2, max_future=2),
             tasks=small(("T0",))),
